@@ -145,6 +145,12 @@ pub trait Monitor {
     fn on_panic(&mut self, rec: &GameRecord, p: &PanicInfo, s: &mut Sink) {}
     fn on_game_end(&mut self, rec: &GameRecord, s: &mut Sink) {}
     fn finish(&mut self, s: &mut Sink) {}
+    /// synthetic twins of visited play states the monitor wants to judge as well (bit mask of decoy::judged_twins kinds)
+    fn twin_kinds(&self) -> u8 {
+        0
+    }
+    /// a twin of the state last passed to `on_state` (same shadow; lists and result are the twin's own)
+    fn on_twin_state(&mut self, kind: u8, o: &Obs, s: &mut Sink) {}
     /// monitors that need the turn tree expanded at sampled roots say how deep / how many nodes
     fn wants_rep_lists(&self) -> bool {
         true
@@ -537,6 +543,46 @@ fn note_panic(rec: &GameRecord, p: &PanicInfo, mon: &mut dyn Monitor, sink: &mut
     mon.on_panic(rec, p, sink);
 }
 
+/// Judge the synthetic twins the monitor asked for (every fourth state, chosen by the state's fingerprint so that
+/// a replay judges the same ones).
+/// every how many states (by fingerprint) twins are judged: 4 in quick runs, 12 in thorough runs, 1 in replays
+pub static TWIN_MOD: std::sync::atomic::AtomicU64 = std::sync::atomic::AtomicU64::new(4);
+
+pub fn judge_twins(o: &Obs, mon: &mut dyn Monitor, sink: &mut Sink) {
+    let kinds = mon.twin_kinds();
+    if kinds == 0 || o.sh.fingerprint() % TWIN_MOD.load(std::sync::atomic::Ordering::Relaxed).max(1) != 0 {
+        return;
+    }
+    let saved = take_decoys();
+    for (kind, t) in crate::decoy::judged_twins(o.g, kinds) {
+        let name = match kind {
+            1 => "rebuilt twin: the same state re-assembled with the public constructors",
+            2 => "saturated twin: the same state with a past in which every position a turn-ending action could create began two earlier turns",
+            _ => "half-saturated twin: the same state with a past in which every other position a turn-ending action could create began two earlier turns",
+        };
+        match observe(&t) {
+            Ok(q) => {
+                let o2 = Obs { rec: o.rec, g: &t, sh: o.sh, norep: &q.norep, norep_codes: &q.norep_codes, rep: &q.rep, rep_codes: &q.rep_codes, term: q.term, linear: false };
+                sink.context = Some(name.to_string());
+                mon.on_twin_state(kind, &o2, sink);
+                sink.context = None;
+                sink.count("synthetic_twin_states_judged");
+                if kind != 1 && q.rep_codes.is_empty() {
+                    sink.count("saturated_twins_with_nothing_offered");
+                }
+            }
+            Err(p) => {
+                if kind == 1 {
+                    note_panic(o.rec, &p, mon, sink);
+                } else {
+                    sink.count("panics_on_saturated_twins_ignored");
+                }
+            }
+        }
+    }
+    set_decoys(saved);
+}
+
 /// Play one game. `rec.actions` is filled with the actions applied.
 pub fn play(rec: &mut GameRecord, mut policy: Policy, opts: &PlayOpts, rng: &mut Rng, mon: &mut dyn Monitor, sink: &mut Sink) -> Outcome {
     sink.games += 1;
@@ -581,6 +627,7 @@ pub fn play(rec: &mut GameRecord, mut policy: Policy, opts: &PlayOpts, rng: &mut
         {
             let o = Obs { rec, g: &g, sh: &sh, norep: &q.norep, norep_codes: &q.norep_codes, rep: &q.rep, rep_codes: &q.rep_codes, term: q.term, linear: true };
             mon.on_state(&o, sink);
+            judge_twins(&o, mon, sink);
         }
         if sh.step == 0 && q.term.is_some() {
             break;
@@ -658,7 +705,15 @@ pub fn play(rec: &mut GameRecord, mut policy: Policy, opts: &PlayOpts, rng: &mut
             };
             mon.on_transition(&t, sink);
         }
-        g = out.after;
+        if rec.rep_first {
+            // these games also carry ONE state object along, overwritten in place at every step
+            let next = out.after;
+            if guard("clone_from", || g.clone_from(&next)).is_err() {
+                g = next;
+            }
+        } else {
+            g = out.after;
+        }
         sh = out.sh_after;
     }
     take_decoys();
@@ -679,6 +734,7 @@ pub fn walk(g: &GameState, sh: &Shadow, q: &Queries, rec: &mut GameRecord, depth
     if visit_root {
         let o = Obs { rec, g, sh, norep: &q.norep, norep_codes: &q.norep_codes, rep: &q.rep, rep_codes: &q.rep_codes, term: q.term, linear: false };
         mon.on_state(&o, sink);
+            judge_twins(&o, mon, sink);
     }
     if depth == 0 || (sh.step == 0 && q.term.is_some()) {
         return;
@@ -793,6 +849,28 @@ pub fn walk_levels(g: &GameState, sh: &Shadow, q: &Queries, rec: &mut GameRecord
             }
         }
         sink.add("level_walk_transitions", outs.len() as u64);
+        // the successors are handed on through ONE scratch object that is overwritten in place (clone_from), in
+        // the order of their hashes: its previous content is then often a transposed sibling (same board, side
+        // and step, possibly another push/pull status or other earlier boards)
+        outs.sort_by_key(|(i, c, r)| (r.as_ref().map_or(0, |o| guard("transposition_hash", || o.after.transposition_hash()).unwrap_or(0)), *i, *c));
+        let mut scratch: Option<GameState> = None;
+        for (_, _, r) in outs.iter_mut() {
+            if let Ok(o) = r {
+                let copied = guard("clone_from", || {
+                    let mut d = match scratch.take() {
+                        Some(d) => d,
+                        None => o.after.clone(),
+                    };
+                    d.clone_from(&o.after);
+                    d
+                });
+                if let Ok(d) = copied {
+                    o.after = d.clone();
+                    scratch = Some(d);
+                    sink.count("level_walk_states_reseated_with_clone_from");
+                }
+            }
+        }
         // phase 2: monitors, queries on the successors, next frontier
         let mut next: Vec<LevelNode> = vec![];
         for (i, code, r) in outs {
@@ -838,6 +916,7 @@ pub fn walk_levels(g: &GameState, sh: &Shadow, q: &Queries, rec: &mut GameRecord
                     {
                         let o = Obs { rec, g: &out.after, sh: &out.sh_after, norep: &q2.norep, norep_codes: &q2.norep_codes, rep: &q2.rep, rep_codes: &q2.rep_codes, term: q2.term, linear: false };
                         mon.on_state(&o, sink);
+            judge_twins(&o, mon, sink);
                     }
                     let ended = out.sh_after.step == 0;
                     if !ended && level + 1 < depth {
@@ -879,6 +958,7 @@ pub fn sweep_root(rec: &mut GameRecord, depth: u32, rng: &mut Rng, mon: &mut dyn
                 {
                     let o = Obs { rec, g: &g, sh: &sh, norep: &q.norep, norep_codes: &q.norep_codes, rep: &q.rep, rep_codes: &q.rep_codes, term: q.term, linear: false };
                     mon.on_state(&o, sink);
+            judge_twins(&o, mon, sink);
                 }
                 walk_levels(&g, &sh, &q, rec, depth, &mut budget, rng, mon, sink);
             }
